@@ -60,11 +60,15 @@ impl Check for C18 {
             Phase { name: "claim maps over the key alphabet x values of every kind; all 128 typed-claim subsets", cases: scale(if q { 100000 } else { 600000 }, b), exhaustive: false },
             Phase { name: "arrays of arity 0-7 for the KDF context and its sub-arrays with every slot kind", cases: scale(if q { 100000 } else { 600000 }, b), exhaustive: false },
             Phase { name: "encode side: well-formed values of the four types", cases: scale(if q { 60000 } else { 400000 }, b), exhaustive: false },
+            Phase { name: "birthday: claims sets with 2^18 pairwise distinct text / private-use claim keys", cases: 2, exhaustive: true },
         ]
     }
     fn run_case(&self, ctx: &mut Ctx, phase: usize, idx: u64) {
         let ty = TYPES[(idx % 4) as usize];
         match phase {
+            6 => {
+                super::common::birthday_case(ctx, 4 + idx);
+            }
             0 => iff::valid_case(ctx, ty, &TYPES),
             1 => iff::enum_case(ctx, ty, SALT, idx / 4, &TYPES, 1),
             2 => iff::mutant_case(ctx, ty, &TYPES),
@@ -125,7 +129,7 @@ impl Check for C18 {
         }
     }
     fn rule(&self) -> String {
-        "decode side: valid CWT claims sets, COSE_KDF_Context, PartyInfo and SuppPubInfo values (timestamps int/float incl. extremes, +-0.0, inf, NaN; nonces bstr/int/nil; key length up to 2^64-1; styled protected headers; 0-3 SuppPrivInfo strings) in canonical + 3 random encodings; complete single-fault neighbourhoods of fixed bases; 1-3 random faults; claim maps over keys {0..9, 38..40, -261..-256, private boundary, texts, out-of-range} x values of every kind; all 128 typed-claim subsets; arrays of arity 0-7 over slot palettes for the context and its sub-arrays; wrong kinds at each trailing index. Oracle: accept iff the reference model accepts and every field equals its wire value (KDF context observed through its Value form). Encode side: the C11 oracle on well-formed values of the four types. Non-trivial = distinct encodings.".into()
+        "decode side: valid CWT claims sets, COSE_KDF_Context, PartyInfo and SuppPubInfo values (timestamps int/float incl. extremes, +-0.0, inf, NaN; nonces bstr/int/nil; key length up to 2^64-1; styled protected headers; 0-3 SuppPrivInfo strings) in canonical + 3 random encodings; complete single-fault neighbourhoods of fixed bases; 1-3 random faults; claim maps over keys {0..9, 38..40, -261..-256, private boundary, texts, out-of-range} x values of every kind; all 128 typed-claim subsets; arrays of arity 0-7 over slot palettes for the context and its sub-arrays; wrong kinds at each trailing index. Oracle: accept iff the reference model accepts and every field equals its wire value (KDF context observed through its Value form). Encode side: the C11 oracle on well-formed values of the four types. Birthday workload: 2^18 pairwise distinct labels (8-character texts / 64-bit integers / private-use integers) in one map must all be accepted and come back in order (a duplicate detector keyed on anything shorter than the label would report a duplicate that is not there). Non-trivial = distinct encodings.".into()
     }
     fn assumptions(&self) -> Vec<String> {
         let mut v = super::std_assumptions();
